@@ -171,6 +171,64 @@ PROPS = {
             "DESIGN.md section 3 C20"),
 }
 
+# additions of the strengthening rounds: (extra technique, extra claim) appended to the entries above
+EXTRA = {
+    "C01": ("histories of calls on one scoring object; larger pairs up to 13 elements",
+            "Also: one factory scoring a dataset that is mutated in place / other datasets in between (R5); pairs with 9+ buckets."),
+    "C02": ("evaluation of the wrapper and of the matrix accessors on real instances with the kernel intercepted",
+            "Also: the position / bucket-id matrices are (elements x rankings) with -1 exactly where unranked and ordered like "
+            "the buckets; several schemes in a row through the same wrapper; matrices recomputed after every mutator (T5)."),
+    "C03": ("exhaustive projection rule; one algorithm object reused on several datasets",
+            "Also: sub_problem_from_elements = definitional projection for every kept subset (W5); every algorithm object "
+            "reused on six datasets in a row (W6)."),
+    "C04": ("bounded end-to-end evaluation against a definitional oracle, histories on shared objects with late reads, "
+            "ideal PuLP / CPLEX stand-in solvers",
+            "Also (C04/E): every configuration (CPLEX API absent and present) on curated datasets, and along a history of calls "
+            "on shared objects; scores returned earlier are read again at the end."),
+    "C05": ("bounded end-to-end evaluation with ideal PuLP / CPLEX stand-in solvers over the recorded model; igraph "
+            "component numbering modelled faithfully",
+            "Also (C05/E): optimised / non-optimised / paper-optimisation CPLEX models, the selector and the PuLP model reach the "
+            "oracle's optimum on curated datasets (several incomparable components included); all-optima request on the "
+            "non-optimised model = the oracle's minimisers; one object reused along a history."),
+    "C06": ("bounded end-to-end evaluation against the oracle (CPLEX API absent / present), histories with in-place mutation",
+            "Also (C06/E): partition admits an optimum, flagged results are optimal, along histories on shared objects."),
+    "C07": ("the real partition code on a real Dataset with a scripted cost cube: cascade families over 5-7 groups, big "
+            "consecutive groups",
+            "Also: Q2 on cascade families (first fusion anywhere, d groups absorbed backwards, following boundary) and on "
+            "groups with 10 / 12 cross pairs."),
+    "C08": ("relative comparisons written as combinations of the accepted gains; bounded end-to-end evaluation with histories",
+            "Also: a comparison between cost-dependent values whose outcome the signs of the gains do not force is explored "
+            "both ways with two accepted moves in different sweeps (L1 relative-exit)."),
+    "C09": ("numpy array text modelled (elision beyond 1000 items); 1003-element scenario",
+            "Also: two 1003-element rankings differing in the middle are both departure points (N3)."),
+    "C10": ("real entry point on a real Dataset with the scorer scripted; 1003-element scenario",
+            "Also: K6 long rankings keep their own scores; K5 after mutators."),
+    "C11": ("orderings at three magnitudes; wiring on real instances",
+            "Also: V2 at 1e9- and 1e-9-scale costs (exact comparison); V4 by evaluation on real instances."),
+    "C12": ("datasets with equal exact means over different numbers of rankings",
+            "Also (C12/E): elements with the same exact mean over different presence counts are tied."),
+    "C13": ("the counter on concrete cost cubes (three magnitudes, 130 elements); wiring on real instances",
+            "Also: O1 at 1e9 / 1e-9 scale, O2 coverage for 4, 7 and 130 elements."),
+    "C14": ("complete-by-mutation datasets; shared termination obligations of the local search",
+            "Also: datasets that became complete through in-place removals are never refused (A3); A6 = C08/L1, L3."),
+    "C15": ("sequences on shared objects compared with runs on fresh objects",
+            "Also: I6 a sequence of runs on one algorithm / Dataset / scheme object equals runs on fresh objects, step by "
+            "step; I3 (writes to the algorithm object) is recorded, not a violation."),
+    "C16": ("independence of derived datasets, wide matrices with integer dtype ranges, flags for 1..26 rankings",
+            "Also: U6 a derived dataset and its source do not share state; projection on every kept subset; a 130-bucket "
+            "ranking; flags and sizes for every number of rankings from 1 to 26."),
+    "C17": ("type-based refinement of the rendering taint; equality after in-place modification",
+            "Also: Y4 compare, modify in place, compare again; Y1 counts a rendering only when the rendered value may hold a set."),
+    "C18": ("static ambiguity analysis of regular expressions (stdlib regex parser, automaton product search)",
+            "Also: P5 no regular expression of the parsing modules has an exponentially ambiguous loop (no hang by backtracking)."),
+    "C19": ("exact products and presets on real instances; scale-free equivalence pool",
+            "Also: products exact for factors from 1e-13 to 1e9; equivalence pool with 2^-34 / 2^40 multiples; presets and "
+            "nickname by evaluation on real instances."),
+    "C20": ("constructor flags for 1..26 complete rankings",
+            "Also: M6 the Dataset built from m complete rankings is flagged complete for every m from 1 to 26."),
+}
+
+
 def main():
     checks = []
     na = []
@@ -182,6 +240,9 @@ def main():
                                                      "section 3); not claimed until its rules exist"})
             continue
         tech, text, note, ref = PROPS[pid]
+        if pid in EXTRA:
+            tech = tech + "; " + EXTRA[pid][0]
+            text = text + " " + EXTRA[pid][1]
         checks.append({
             "property_id": pid,
             "quick_cmd": f"./check {pid} --tier quick",
